@@ -410,19 +410,30 @@ _MUX_COMMON_ASSUME = ["the peer is scripted by the harness with its own implemen
                       "the schedule; normal latency is well under 10 ms"]
 reg(P("C09", "mux", "c09",
       mc={"quick": [("MuxMC", "Mux_c09.cfg", 600), ("MuxMC", "Mux_c09_wrapfix.cfg", 600),
-                    ("MuxMC", "Mux_c09_bug_wrap.cfg", 600, "violation")],
+                    ("MuxMC", "Mux_c09_bug_wrap.cfg", 600, "violation"),
+                    ("ReverseMC", "Reverse_fix.cfg", 600), ("ReverseMC", "Reverse_live.cfg", 600),
+                    ("ReverseMC", "Reverse_bug_idle.cfg", 600, "violation"), ("ReverseMC", "Reverse_bug_stop.cfg", 600, "violation"),
+                    ("ReverseMC", "Reverse_bug_wake.cfg", 600, "violation")],
           "thorough": [("MuxMC", "Mux_c09.cfg", 600), ("MuxMC", "Mux_c09_wrapfix.cfg", 600), ("MuxMC", "Mux_c10.cfg", 1200),
-                       ("MuxMC", "Mux_c09_bug_wrap.cfg", 600, "violation")]},
+                       ("MuxMC", "Mux_c09_bug_wrap.cfg", 600, "violation"),
+                       ("ReverseMC", "Reverse_fix.cfg", 600), ("ReverseMC", "Reverse_fix_big.cfg", 1500), ("ReverseMC", "Reverse_live.cfg", 600),
+                       ("ReverseMC", "Reverse_bug_idle.cfg", 600, "violation"), ("ReverseMC", "Reverse_bug_stop.cfg", 600, "violation"),
+                       ("ReverseMC", "Reverse_bug_wake.cfg", 600, "violation")]},
       traces=[("", "MuxTrace", "MuxTrace.cfg")],
       level="model_checking",
       rule="cases = {tcp, unix, udp, websocket} x {answers in reverse order, shuffled, with duplicated responses carrying "
            "foreign payloads, with stray indices, index wrap-around forced through the counter accessor} x rounds of "
            "concurrent callers on one connection; every caller's payload is unique and the reply is a function of the "
-           "request; non-trivial = every case (>= 12 concurrent callers or a forced wrap)",
+           "request; plus reverse calls (reverse.Caller -> reverse.Provider over tcp and mock): concurrent Invokes with "
+           "seeded provider delays, the same with poll idle time-outs every 1-3 ms, calls after idle time-outs, and three "
+           "gate-stepped schedules taken from the counterexamples of Reverse.tla (call handed over at the poll's time-out, "
+           "call queued between a timed-out poll and the next, call queued between a poll's empty check and its "
+           "registration); the peer is healthy in all of these, so an error return is a lost call; "
+           "non-trivial = every case (>= 12 concurrent callers, a forced wrap, or a reverse scenario)",
       assumptions=_MUX_COMMON_ASSUME + ["wrap-around is produced by setting the request counter through a verif-only accessor"],
       sig_reset=("kind", "mode"), sig_event=("ev", "kind"),
       mutate=_mux_mutate, design_ref="DESIGN.md §6 C09",
-      technique="TLC model checking of Mux.tla (OwnResponse over all interleavings, answer orders, duplicates, strays, wrap) + TLC trace validation of real concurrent calls against MuxMonitor"))
+      technique="TLC model checking of Mux.tla (OwnResponse over all interleavings, answer orders, duplicates, strays, wrap) and Reverse.tla (NoDeadLetter, NoStuckPoll, OwnResult, NoSleepingCall, liveness) + TLC trace validation of real concurrent calls and reverse calls against MuxMonitor"))
 
 reg(P("C10", "mux", "c10",
       mc={"quick": [("MuxMC", "Mux_c10.cfg", 900),
